@@ -1,15 +1,19 @@
 import ScVerif.Base.Line
 import ScVerif.C15.Paging
 import ScVerif.C15.Store
-/-! Driver handler for C15: the state is the collection (`keys` line: its ids in ANY order; `sop` lines: the
-creation / update / deletion operations of `Store.lean`) and its listing `sortKeys ids`.
+import ScVerif.C15.Records
+/-! Driver handler for C15: the state is the collection as records (`keys` line: its ids in ANY order, each
+record carrying its id as key field; `sop` lines: the creation / update / deletion operations of `Records.lean`)
+and what the List RPC pages over, `rlisting` (the records sorted by id, seen through their key field).
 
 ```
 keys <hex,hex,…|->                 → ok <n>            (ids in insertion order; the model sorts)
 sop add <hex|-> <hex|->            → ok <hex> | exists | aborted     (id or "-" = empty: generate; candidate id)
 sop ensure <hex|->                 → ok <hex> | rejected
-sop update <hex|->                 → ok <hex> | notfound
-sop delete <hex|->                 → ok <hex> | notfound
+sop updm <hex|-> <0|1> <n|k|x>     → ok <hex> | notfound | rejected   (Update*(message): create-if-absent; update mask none / with key / without key)
+sop updi <hex|-> <hex|-> <0|1> <n|k|x>  → the same for UpdatePublication(id, message carrying that Id)
+sop delete <hex|-> <0|1>           → ok <hex> | notfound               (1: allow-missing)
+sop initial <hex|->                → ok <hex> | exists | rejected      (a WithInitial… record)
 listing                            → <hex,…|->
 page <gt|ge> <size> <E|B|K<hex>>   → ok <hex,…|-> <N|T<hex>> <total> | err <Code> | panic
 codec <gt|ge> <hex bytes>           → <first page> | <page after its token>   or   invalid (not UTF-8)
@@ -84,20 +88,24 @@ def showRes : StoreRes → String
   | .aborted => "aborted"
   | .rejected => "rejected"
 
-/-- Driver state: the collection's ids and their listing (`listing ids`, recomputed after every change). -/
+/-- Driver state: the collection's records and what the List RPC sees of them (`rlisting`, recomputed after every change). -/
 structure St where
-  ids : Store := []
+  recs : RStore := []
   keys : List String := []
 
-def St.apply (st : St) (op : StoreOp) : St × String :=
-  let r := st.ids.step op
-  ({ ids := r.1, keys := listing r.1 }, showRes r.2)
+def St.apply (st : St) (op : RecOp) : St × String :=
+  let r := st.recs.step op
+  ({ recs := r.1, keys := rlisting r.1 }, showRes r.2)
+
+def parseMask? (s : String) : Option Mask :=
+  if s = "n" then some .none else if s = "k" then some .withKey else if s = "x" then some .withoutKey else none
 
 def stepSt (st : St) (toks : List String) : Option (St × String) :=
   match toks with
   | ["keys", ks] => do
     let l ← parseKeys? ks
-    pure ({ ids := l, keys := listing l }, s!"ok {l.length}")
+    let recs : RStore := l.map fun id => { id := id, key := id }
+    pure ({ recs := recs, keys := rlisting recs }, s!"ok {l.length}")
   | ["sop", "add", id, cand] => do
     let id ← unhexId? id
     let cand ← unhexId? cand
@@ -105,12 +113,24 @@ def stepSt (st : St) (toks : List String) : Option (St × String) :=
   | ["sop", "ensure", id] => do
     let id ← unhexId? id
     pure (st.apply (.ensure id))
-  | ["sop", "update", id] => do
+  | ["sop", "updm", id, up, mask] => do
     let id ← unhexId? id
-    pure (st.apply (.update id))
-  | ["sop", "delete", id] => do
+    let up ← parseBool? up
+    let mask ← parseMask? mask
+    pure (st.apply (.updateMsg id up mask))
+  | ["sop", "updi", id, msgKey, up, mask] => do
     let id ← unhexId? id
-    pure (st.apply (.delete id))
+    let msgKey ← unhexId? msgKey
+    let up ← parseBool? up
+    let mask ← parseMask? mask
+    pure (st.apply (.updateId id msgKey up mask))
+  | ["sop", "delete", id, allow] => do
+    let id ← unhexId? id
+    let allow ← parseBool? allow
+    pure (st.apply (.delete id allow))
+  | ["sop", "initial", id] => do
+    let id ← unhexId? id
+    pure (st.apply (.initial id))
   | ["listing"] => pure (st, showKeys st.keys)
   | _ => none
 
